@@ -40,7 +40,20 @@ OPS = [
     (r"QuantifierType::Exists", "QuantifierType::Forall"),
     (r"BinaryOperator::ImpliesInv\)", "BinaryOperator::Implies)"),
     (r"n \+ 1", "n"), (r"n - 1", "n"),
+    (r"TruthTableEntry::False\b", "TruthTableEntry::True"), (r"TruthTableEntry::True\b", "TruthTableEntry::False"),
+    (r"TruthTableEntry::Any\b", "TruthTableEntry::True"), (r"BDD::True\b", "BDD::False"), (r"BDD::False\b", "BDD::True"),
 ]
+
+
+def _code_matches(pat, body):
+    """matches of pat in body that do not start inside a comment or string literal"""
+    spans = []
+    pos = 0
+    for t in L.lex(body):
+        if t.kind in ("lcomment", "bcomment", "str", "char"):
+            spans.append((pos, pos + len(t.text)))
+        pos += len(t.text)
+    return [m for m in re.finditer(pat, body) if not any(a <= m.start() < e for a, e in spans)]
 
 
 def sites(b):
@@ -59,7 +72,7 @@ def sites(b):
         bo = seg.find("{")
         body = seg[bo:]
         for oi, (pat, rep) in enumerate(OPS):
-            for k, m in enumerate(re.finditer(pat, body)):
+            for k, m in enumerate(_code_matches(pat, body)):
                 out.append((fid, oi, k, f"{fid}: `{m.group(0).strip()}` -> `{re.sub(pat, rep, m.group(0)).strip()}` (occurrence {k})"))
     return out
 
@@ -72,7 +85,7 @@ def make_mutator(target_fid, oi, k):
             return None
         bo = text.find("{")
         head, body = text[:bo], text[bo:]
-        ms = list(re.finditer(pat, body))
+        ms = _code_matches(pat, body)
         if k >= len(ms):
             return None
         m = ms[k]
